@@ -118,7 +118,7 @@ func mutate(r *rand.Rand, raw []byte) []byte {
 		return fixwire.Build(fs[0].Val, rest)
 	}
 	c := append(fixwire.Fields{}, fs...)
-	switch r.Intn(23) {
+	switch r.Intn(24) {
 	case 0: // truncate
 		return append([]byte{}, raw[:r.Intn(len(raw))]...)
 	case 1: // empty value on a field, framing recomputed
@@ -208,6 +208,25 @@ func mutate(r *rand.Rand, raw []byte) []byte {
 		return append(b, []byte(core.Pick(r, "10=", "58", "=", "9=5"))...)
 	case 20: // empty
 		return []byte{}
+	case 22: // XMLDataLen reaching exactly (or one or two bytes around) the end of the message
+		ins := fixwire.Fields{{Tag: 212, Val: "0000"}, {Tag: 213, Val: core.Pick(r, "<a/>", "x", "<a>\x01b</a>")}}
+		at := 3 + r.Intn(len(c)-3)
+		c = append(c[:at], append(ins, c[at:]...)...)
+		var b []byte
+		if r.Intn(2) == 0 {
+			b = reframe(c)
+		} else {
+			b = fixwire.Encode(c)
+		}
+		if i := bytes.Index(b, []byte("\x01213=")); i > 0 {
+			if j := bytes.Index(b, []byte("\x01212=0000\x01")); j > 0 {
+				n := len(b) - (i + 5) + core.Pick(r, -2, -1, 0, 0, 0, 1, 2)
+				if n >= 0 && n < 10000 {
+					copy(b[j+5:], fmt.Sprintf("%04d", n))
+				}
+			}
+		}
+		return b
 	case 21: // integer boundaries on a numeric field (sequence numbers, ranges, counts, intervals, lengths)
 		var idx []int
 		for i, f := range c {
